@@ -8,7 +8,7 @@
 From Coq Require Import String.
 From Coq Require Import List Arith ZArith.
 Import ListNotations.
-From YP Require Import Base.Str Term.Term Engine.Db Engine.DbCursor Engine.DbCursorThms Engine.DbSpec Engine.DbTotal Engine.DbFacts Engine.DbProg Engine.DbProgThms Engine.RunDbProg Engine.DbProgInv Engine.DbProgSim.
+From YP Require Import Base.Str Term.Term Term.Show Engine.Db Engine.DbCursor Engine.DbCursorThms Engine.DbSpec Engine.DbTotal Engine.DbFacts Engine.DbProg Engine.DbProgThms Engine.RunDbProg Engine.DbProgInv Engine.DbProgSim.
 
 (* For every history of asserta / assertz / assert_fact / query (all answers, or j answers then
    close) / retract (j answers requested, then closed; j larger than the number of matches = run to
@@ -94,8 +94,11 @@ Proof. eexists. eexists. split; [vm_compute; reflexivity|]. split; vm_compute; r
 
 (* ---- "issued through the Python API or FROM COMPILED CODE" ----
    DbProg.solve runs clause bodies (goals on dynamic facts and on compiled predicates, =, asserta/assertz/
-   retract/retractall, goals held in bound variables) depth first on a shared heap, the database being
-   threaded through the whole search: a goal stays suspended while the rest of the body - which may
+   retract/retractall, goals held in bound variables, and - round 5 - the control constructs !, fail, ( A ; B ),
+   ( C -> T ; E ), ( C -> T ), \+ C with the semantics of the repaired compiler: a cut inside a condition or under
+   \+ is local to it, a cut elsewhere ends the clause loop of its predicate and is not passed to the caller)
+   depth first on a shared heap, the database being threaded through the whole search - also through the
+   branches that a cut or a commit discards: a goal stays suspended while the rest of the body - which may
    update the same predicate - runs for each of its answers.  For every program, body, store, state and
    fuel: the database updates of the run (tr) are atomic LIST OPERATIONS, each applied to the list that is
    current when it happens -
@@ -120,6 +123,18 @@ Example C07_compiled_history :
   run_prog 100 50 1000 [mkcl (d "m") 3 [] body; mkcl (d "m2") 3 [] (body ++ [GCall (d "p") [TVar 0]])]
            [(d "m", [], 0); (d "m2", [], 0)] [(d "flag", 0); (d "p", 1); (d "nope", 1)]
   = OL [OL [otag "answers" [OL [OL []]]; otag "answers" [OL []]]; OL [OL []; OL []; OL []]; onat 4].
+Proof. vm_compute. reflexivity. Qed.
+
+(* non-vacuity, control constructs:  m :- ( flag -> retract(flag) ; assertz(flag) ), \+ nope(_), ( p(X), ! ; assertz(p(7)) ).
+   called three times: flag/0 is stored, removed, stored; nope/1 has no facts (the \+ succeeds, nothing raises); the first
+   call stores p(7) through the right branch, the later ones find it and commit: 3 Answers created *)
+Example C07_compiled_control :
+  let flag := TAtom (d "flag") in let p x := TFun (d "p") [x] in
+  let body := [GIf [GCall (d "flag") []] [GRetract flag] [GAssert false flag]; GNot [GCall (d "nope") [TVar 1]];
+               GOr [GCall (d "p") [TVar 0]; GCut] [GAssert false (p (TInt 7))]] in
+  run_prog 100 50 1000 [mkcl (d "m") 2 [] body] [(d "m", [], 0); (d "m", [], 0); (d "m", [], 0)] [(d "flag", 0); (d "p", 1); (d "nope", 1)]
+  = OL [OL [otag "answers" [OL [OL []]]; otag "answers" [OL [OL []]]; otag "answers" [OL [OL []]]];
+        OL [OL [OL []]; OL [OL [term_obs (TInt 7)]]; OL []]; onat 3].
 Proof. vm_compute. reflexivity. Qed.
 
 (* ---- compiled code, through the trace inclusion (Engine/DbProgSim.v, see C14_compiled_run_is_cursor_history) ----
